@@ -259,6 +259,14 @@ def judge(res, cfg, args, faults, r, user_alpha, d, dyn, precomputed):
     if not pm.events:
         raise HarnessError("no validation event recorded")
     init, steps, aborted = pm.steps()
+    for e in pm.events:
+        Wsel = e["weights"][2 if pm.mlp else 0]
+        amax = np.abs(Wsel).max(axis=1) if Wsel.size else np.zeros(0)
+        if np.any((amax > 0) & (amax < 1e-150)):
+            # the norm of such a row underflows to 0 although the row is not zero: the number of selected features is not
+            # decidable in floating point (rows without gradient shrunk geometrically for hundreds of steps); not judged
+            res.probe("runs_with_underflowing_rows_not_judged")
+            return
     T = len(steps)
     res.probe("recorded_steps", T)
     if T >= 2:
